@@ -32,7 +32,9 @@ def _call(c, how, R, method, **kw):
     raise KeyError(how)
 
 
-CLOSED = ['chiaverini', 'hughes', 'sarabandi']
+CLOSED = ['chiaverini', 'hughes']
+import itertools
+SHARDS = [''.join(bits) for bits in itertools.product('TF', repeat=4)]
 HOWS = ['function', 'DCM.to_quaternion', 'Quaternion(dcm=)', 'QuaternionArray(DCM=)']
 
 
@@ -56,5 +58,17 @@ def c_closed(c):
     c.assume(ge(q[0] * q[0], W_MIN2))
     R = mat_of_quat(q)
     qq = _call(c, c.p['how'], R, c.p['method'])
+    _post(c, qq, R)
+    c.observe('q', qq)
+
+
+@contract('C02', 'sarabandi', variants=[dict(how=h, shard=s) for h in HOWS for s in SHARDS], cost=8,
+          functions=['orientation.sarabandi'])
+def c_sarabandi(c):
+    """Sarabandi (threshold 0), sharded over its first four branch decisions"""
+    q = c.unit_quat('q')
+    c.assume(ge(q[0] * q[0], W_MIN2))
+    R = mat_of_quat(q)
+    qq = _call(c, c.p['how'], R, 'sarabandi')
     _post(c, qq, R)
     c.observe('q', qq)
